@@ -1284,6 +1284,10 @@ def GENSW(ctx):
             line = "gen connect_coding_graph i%d %s i%d bF" % (kk, mt, rng.choice([1, 1, 2, 2, 3, 4]))
             out = ctx.corr(line)
             ctx.case(line, out.startswith("ok"), "gen:connect_coding_graph")
+            table = "D{" + ";".join("s%s:%s" % (gen.kmer(i, kk), "bT" if x else "bF") for i, x in enumerate(mask)) + "}"
+            line = "gen find_vertices i%d %s bF" % (kk, table)
+            out = ctx.corr(line)
+            ctx.case(line, out.startswith("ok"), "gen:find_vertices")
         if len(w) >= 1:
             occ = rng.randrange(len(w))
             line = "gen path_matching s%s %s i%d i%d %s n" % (w[:2 * k + 1], _wire_acc(rows), rng.choice([v, rng.randrange(g.n), -1]),
@@ -1322,6 +1326,8 @@ def GENGZ(ctx):
         v, d = rng.randrange(g.n), rng.randrange(0, 4)
         ctx.corr("gen obtain_leaf_vertices i%d i%d %s n" % (v, d, acc))
         ctx.corr("gen obtain_leaf_vertices i%d i%d n %s" % (v, d, lmt))
+        if k <= 2 or rng.random() < 0.3:
+            ctx.corr("gen calculate_intersection_score %s i%d %s %s bF" % (lmt, k, rng.choice(["bT", "bF"]), rng.choice(["bT", "bF"])))
         ctx.case("gzviews " + g.token(), True, "gen:graph-views")
     if ctx.part == 0:
         a2 = _wire_acc(gen.gc_balanced2().rows())
